@@ -7,7 +7,13 @@ Used only by the correspondence checks, never inside a proof.
 import PestTyped.Model.Run
 import PestTyped.Model.Tokens
 import PestTyped.Model.Gen
+import PestTyped.Model.Spec
+import PestTyped.Model.GenOpts
 import Driver.Sexp
+import Driver.Text
+import Driver.Acc
+import Driver.Getters
+import Driver.WF
 open PestTyped
 namespace Driver
 
@@ -190,10 +196,17 @@ def runCase (ge : GrammarEntry) (rule entry form : String) (a b : Nat) (input : 
     let showM := fun (m : M) => "\tstk=" ++ showStack m.stk ++ "\ttrk=" ++ showTracker g m.trk
     match entry with
     | "parse_partial" =>
-      match tryParsePartial g uniTable fuel r i with
+      let specOut := match ge.pg with
+        | none => ""
+        | some pg =>
+          match specPartial pg uniTable fuel rule i with
+          | .oof => "\tspec=oof"
+          | .fail => "\tspec=fail"
+          | .ok i' S => "\tspec=ok:" ++ toString i'.pos ++ ":" ++ showStack S
+      (match tryParsePartial g uniTable fuel r i with
       | .oof => "v=oof"
       | .fail m => "v=fail" ++ showM m
-      | .ok i' m v => "v=ok\tend=" ++ toString i'.pos ++ showM m ++ "\ttok=" ++ showTokens g (tokens g v)
+      | .ok i' m v => "v=ok\tend=" ++ toString i'.pos ++ showM m ++ "\ttok=" ++ showTokens g (tokens g v)) ++ specOut
     | "check_partial" =>
       match tryCheckPartial g uniTable fuel r i with
       | .oof => "v=oof"
@@ -211,15 +224,54 @@ def runCase (ge : GrammarEntry) (rule entry form : String) (a b : Nat) (input : 
       | .ok _ m _ => "v=ok" ++ showM m
     | _ => "v=badentry"
 
+/-! ### option combinations (C20): the module `genWith cfg optimized raw` instead of `gen optimized` -/
+
+def optsConfig (bits : String) : Config :=
+  let cs := bits.toList
+  { box_only_if_needed := cs[0]? == some '1', pest_optimizer := cs[1]? != some '0' }
+
+/-- `opts <b><o> <gid> boxed` prints the `$boxed` argument of every rule;
+`opts <b><o> <gid> <rule> <entry> <form> <a> <b> <hex>` runs a case on the module generated under
+`box_only_if_needed = b`, `pest_optimizer = o` (`spec=` then refers to the AST that was walked). -/
+def runOpts (gs : List GrammarEntry) (bits : String) (rest : List String) : String :=
+  match rest with
+  | gid :: tail =>
+    match gs.find? (·.gid = gid) with
+    | none => "v=nogrammar"
+    | some ge =>
+      match ge.pg, ge.rawpg with
+      | some o, some r =>
+        let cfg := optsConfig bits
+        let ng := genWith cfg o r
+        match tail with
+        | ["boxed"] =>
+          "boxed=" ++ ",".intercalate ((ng.rules.drop 1).map fun d => d.name ++ ":" ++ toString d.boxed)
+        | [rule, entry, form, a, b, hx] =>
+          runCase { ge with ng := ng, pg := some (pickAst cfg o r) } rule entry form
+            (a.toNat?.getD 0) (b.toNat?.getD 0) (unhex hx)
+        | _ => "v=badline"
+      | _, _ => "v=noast"
+  | _ => "v=badline"
+
 partial def loop (h : IO.FS.Stream) (gs : List GrammarEntry) : IO Unit := do
   let line ← h.getLine
   if line.isEmpty then return ()
   match line.trimAscii.toString.splitOn " " with
+  | "text" :: rest => IO.println (TextCases.run rest)   -- text-layer cases (C12-C14): no grammar involved
+  | "getters" :: mode :: gid :: which :: rest =>        -- accessor functions (C16): `getters list|run <gid> <opt|raw> …`
+    IO.println (GetterCases.run mode ((gs.find? (·.gid = gid)).bind fun ge => if which = "raw" then ge.rawpg else ge.pg) rest)
+  | "opts" :: bits :: rest => IO.println (runOpts gs bits rest)   -- option combinations (C20)
+  | "wf" :: gid :: rest =>                              -- static well-foundedness / theorem fuel (C11): Driver/WF.lean
+    IO.println (match gs.find? (·.gid = gid) with | some ge => WF.command ge.ng rest | none => "v=nogrammar")
   | [gid, rule, entry, form, a, b, hx] =>
     match gs.find? (·.gid = gid) with
     | none => IO.println "v=nogrammar"
     | some ge =>
-      IO.println (runCase ge rule entry form (a.toNat?.getD 0) (b.toNat?.getD 0) (unhex hx))
+      let (an, bn, inp) := (a.toNat?.getD 0, b.toNat?.getD 0, unhex hx)
+      if Acc.isEntry entry then   -- accessor / traversal / eq-hash entries (C17, C15, C18): Driver/Acc.lean
+        IO.println (Acc.runCase ge.ng ge.pg.isSome uniTable (fun f x y => mkInp f x y inp) (fuelFor ge.ng inp) rule entry form an bn inp)
+      else
+      IO.println (runCase ge rule entry form an bn inp)
   | _ => IO.println "v=badline"
   loop h gs
 
@@ -229,6 +281,10 @@ def main (args : List String) : IO UInt32 := do
     let text ← IO.FS.readFile path
     let gs := (text.splitOn "\n").filterMap fun l => (Sexp.parse l).bind toGrammar
     loop (← IO.getStdin) gs
+    return 0
+  | [] =>
+    -- no grammar file: only `text …` cases can be answered
+    loop (← IO.getStdin) []
     return 0
   | _ =>
     IO.eprintln "usage: model_driver <grammars.sexp>"
